@@ -221,7 +221,11 @@ func c14graphs(r *rand.Rand, yieldEvery int64) []*c14graph {
 				}
 				alts = append(alts, text.LeftTrim(terminal.Regexp("tok", "TOK", "a token", pat, group), text.WsSpaces))
 			}
-			return combinator.Sentence(text.RightTrim(combinator.Many(combinator.Choice(alts...)), text.WsSpacesNl))
+			// every token is a two-element sequence (token, optional '!') whose result handler is the library's
+			// ReturnSingle(), constructed ONCE here with the grammar and used by every concurrent parse
+			single := combinator.ReturnSingle()
+			tok := combinator.SeqOf(combinator.Choice(alts...), combinator.Optional(terminal.Rune('!'))).HandleResult(single)
+			return combinator.Sentence(text.RightTrim(combinator.Many(tok), text.WsSpacesNl))
 		}}
 		for _, in := range []string{"", "a", "aaa bb c", "l k j i h g f e d c b a", "abcdefghijkl", "aa  bb 1", "a\nb", "kkk lll\n", strings.Repeat("abc def ghi jkl ", 12), strings.Repeat("l", 300) + " !"} {
 			rgr.inputs = append(rgr.inputs, c14input{text: in})
